@@ -573,6 +573,11 @@ impl AuthenticationProtocol  for Ntlm {
         let domain = self.get_domain_name();
         let user = self.get_user_name();
 
+        // every payload field is addressed by a 16 bit length
+        if nt_challenge_response.len() > 0xFFFF || domain.len() > 0xFFFF || user.len() > 0xFFFF {
+            return Err(Error::RdpError(RdpError::new(RdpErrorKind::InvalidSize, "NTLMv2 authenticate field larger than 65535 bytes")))
+        }
+
         let auth_message_compute = authenticate_message(&lm_challenge_response, &nt_challenge_response, &domain, &user, b"", &encrypted_random_session_key, cast!(DataType::U32, result["NegotiateFlags"])?);
 
         // need to write a tmp message to compute MIC and then include it into final message
